@@ -11,15 +11,15 @@ def run(tier, seed):
               EX.ExcelModel.compile_cell, EX.ExcelModel.finish)
     ck.assume('the workbook is a real .xlsx file written by the harness with openpyxl (two sheets referring to each other, whole-column and whole-row references, a defined name, a two-cell array formula, cells reading its spilled cell alone or inside a larger rectangle, and a second workbook whose sheet has the same title but fewer used rows); two constants and the set of requested outputs are boolean selectors; every path loads the file twice (fully, and from the chosen outputs) and calculates natively',
               'completing and finishing the partial model again must leave its node set and its results unchanged')
-    ck.out_of_scope('formulas that refer to ANOTHER workbook (external-link parts of the file format are not produced by the harness; the two workbooks are loaded side by side)', 'output sets other than the listed ones (15 single outputs, 11 chosen combinations, and in the thorough tier a seeded sample up to 256 sets)', 'whole-column references beyond the few listed paths (the library assembles all 1048576 cells of the column: 10 s and several GB per model)', 'workbooks other than the harness template',
+    ck.out_of_scope('output sets other than the listed ones (18 single outputs, 13 chosen combinations, and in the thorough tier a seeded sample up to 256 sets)', 'whole-column references beyond the few listed paths (the library assembles all 1048576 cells of the column: 10 s and several GB per model)', 'workbooks other than the harness template',
                     'symbolic contents (openpyxl / schedula cannot carry symbolic values)')
     quick = tier == 'quick'
     src = open(os.path.join(ROOT, 'harness', 'c15_ranges.py')).read()
-    nout = 15
+    nout = 18
     ORDER = 1 << nout                      # bit 15: the request is made in reverse order
     masks = [1 << b for b in range(nout)]
     masks += [3, 96, 640, 1025, 45, (1 << nout) - 1, ((1 << nout) - 1) | ORDER, (3 << 13) | 2 | ORDER, (3 << 13) | 2,
-              (1 << 12) | (1 << 10), (1 << 11) | 16 | ORDER]
+              (1 << 12) | (1 << 10), (1 << 11) | 16 | ORDER, (1 << 16) | (1 << 17) | ORDER, (1 << 15) | (1 << 16)]
     if not quick:
         import random
         rnd = random.Random(seed)
@@ -29,7 +29,7 @@ def run(tier, seed):
                 masks.append(m)
     groups = 4 if quick else 8
     both = 2 | (1 << 13)
-    colmasks = (2, 1 << 13, both, both | ORDER) + (() if quick else ((1 << nout) - 1, ((1 << nout) - 1) | ORDER, 2 | 1 << 9, both | 64))
+    colmasks = ((both, both | ORDER) if quick else (2, 1 << 13, both, both | ORDER)) + (() if quick else ((1 << nout) - 1, ((1 << nout) - 1) | ORDER, 2 | 1 << 9, both | 64))
     hs, batch = [], Batch()
     try:
         for a in ((0, 4) if quick else range(8)):
@@ -38,16 +38,17 @@ def run(tier, seed):
                 s = src.replace('__FIX_A__', str(a)).replace('__MASKS__', repr(mg)).replace('__WHOLE__', 'row')
                 h = Harness(ck, 'c15_ranges_a%d_g%d' % (a, g), s); hs.append(h)
                 batch.add(h, 600 if quick else 3000, only=['ranges_ok'], ppt=200,
-                          bounds='whole-ROW references; DATA!A1 = pool value #%d, DATA!A2 any of 8 pool values, %d of the %d listed output sets (of 15 formula outputs in two workbooks, either request order)' % (
+                          bounds='whole-ROW references; DATA!A1 = pool value #%d, DATA!A2 any of 8 pool values, %d of the %d listed output sets (of 18 formula outputs in two workbooks, either request order)' % (
                               a, len(mg), len(masks)))
         # whole-COLUMN references assemble a million cells per model (10 s and 2-5 GB a path): few paths
         for a in ((0,) if quick else (0, 4)):
-            for g in range(0, len(colmasks), 2):
-                cm = colmasks[g:g + 2]
+            step = 1 if quick else 2
+            for g in range(0, len(colmasks), step):
+                cm = colmasks[g:g + step]
                 s = src.replace('__FIX_A__', str(a)).replace('__MASKS__', repr(cm)).replace('__WHOLE__', 'col')
                 s = s.replace('< len(MASKS)', '< len(MASKS) and sel(j0, j1, j2) %s' % ('== 1' if quick else 'in (1, 4)'))
-                h = Harness(ck, 'c15_ranges_col_a%d_g%d' % (a, g // 2), s); hs.append(h)
-                batch.add(h, 600 if quick else 3000, only=['ranges_ok'], ppt=300,
+                h = Harness(ck, 'c15_ranges_col_a%d_g%d' % (a, g // step), s); hs.append(h)
+                batch.add(h, 600 if quick else 3000, only=['ranges_ok'], ppt=300, twin_timeout=600,
                           bounds='whole-COLUMN references; DATA!A1 = pool value #%d, DATA!A2 from %d pool value(s), output sets %r around the whole-column cells of the two workbooks' % (
                               a, 1 if quick else 2, cm))
         batch.run()
